@@ -239,37 +239,37 @@ func (c *Ctx) newEffects() *effects {
 
 // Non-mutating external callees a derived value may be passed to. One line of reason each.
 var readOnlyExternal = map[string]string{
-	"fmt.Errorf":                       "formats its operands",
-	"fmt.Sprintf":                      "formats its operands",
-	"fmt.Sprint":                       "formats its operands",
-	"fmt.Sprintln":                     "formats its operands",
-	"fmt.Fprintf":                      "formats its operands",
-	"fmt.Println":                      "formats its operands",
-	"fmt.Printf":                       "formats its operands",
-	"errors.Is":                        "compares",
-	"errors.As":                        "writes only its target argument",
-	"reflect.TypeOf":                   "reads the dynamic type",
-	"reflect.ValueOf":                  "boxes the value; writes through it need Elem().Set* which are reported separately by the reflect-write rule",
-	"(time.Time).Add":                  "value receiver",
-	"(time.Time).Equal":                "value receiver",
-	"(time.Time).Sub":                  "value receiver",
-	"(time.Time).In":                   "value receiver",
-	"(*log.Logger).Println":            "formats its operands",
-	"(*log.Logger).Printf":             "formats its operands",
-	"(*log.Logger).Print":              "formats its operands",
+	"fmt.Errorf":                            "formats its operands",
+	"fmt.Sprintf":                           "formats its operands",
+	"fmt.Sprint":                            "formats its operands",
+	"fmt.Sprintln":                          "formats its operands",
+	"fmt.Fprintf":                           "formats its operands",
+	"fmt.Println":                           "formats its operands",
+	"fmt.Printf":                            "formats its operands",
+	"errors.Is":                             "compares",
+	"errors.As":                             "writes only its target argument",
+	"reflect.TypeOf":                        "reads the dynamic type",
+	"reflect.ValueOf":                       "boxes the value; writes through it need Elem().Set* which are reported separately by the reflect-write rule",
+	"(time.Time).Add":                       "value receiver",
+	"(time.Time).Equal":                     "value receiver",
+	"(time.Time).Sub":                       "value receiver",
+	"(time.Time).In":                        "value receiver",
+	"(*log.Logger).Println":                 "formats its operands",
+	"(*log.Logger).Printf":                  "formats its operands",
+	"(*log.Logger).Print":                   "formats its operands",
 	"(encoding/binary.littleEndian).Uint16": "reads",
 	"(encoding/binary.littleEndian).Uint32": "reads",
 	"(encoding/binary.littleEndian).Uint64": "reads",
 	"(encoding/binary.bigEndian).Uint16":    "reads",
 	"(encoding/binary.bigEndian).Uint32":    "reads",
 	"(encoding/binary.bigEndian).Uint64":    "reads",
-	"encoding/binary.Write":            "reads data argument",
-	"encoding/binary.Read":             "writes only its data argument; order argument is read",
-	"(*sync.Pool).Get":                 "sync.Pool is concurrency-safe by contract",
-	"(*sync.Pool).Put":                 "sync.Pool is concurrency-safe by contract",
-	"strings.HasPrefix":                "reads",
-	"strings.TrimPrefix":               "reads",
-	"unicode/utf8.Valid":               "reads",
+	"encoding/binary.Write":                 "reads data argument",
+	"encoding/binary.Read":                  "writes only its data argument; order argument is read",
+	"(*sync.Pool).Get":                      "sync.Pool is concurrency-safe by contract",
+	"(*sync.Pool).Put":                      "sync.Pool is concurrency-safe by contract",
+	"strings.HasPrefix":                     "reads",
+	"strings.TrimPrefix":                    "reads",
+	"unicode/utf8.Valid":                    "reads",
 }
 
 // writesFrom reports writes through values derived from roots in fn (following module callees).
